@@ -36,14 +36,23 @@ def child_env(extra=None):
 
 def run_child(cmd, timeout, cwd=None, env=None, stdin_data=None):
     """Run a child in its own session; kill the whole group afterwards (a killed pipeline
-    leaves multiprocessing.Manager servers behind otherwise). Returns (rc, out, err)."""
+    leaves multiprocessing.Manager servers behind otherwise). Returns (rc, out, err).
+    The output goes to scratch files, not pipes, and the wait is for the MAIN process: descendants that outlive it
+    (pool workers and manager servers of a main process that was terminated) cannot hold the call up."""
+    fo = tempfile.TemporaryFile(); fe = tempfile.TemporaryFile()
     p = subprocess.Popen(cmd, cwd=cwd, env=env or child_env(), stdin=subprocess.PIPE if stdin_data is not None else subprocess.DEVNULL,
-                         stdout=subprocess.PIPE, stderr=subprocess.PIPE, start_new_session=True)
+                         stdout=fo, stderr=fe, start_new_session=True)
+    timed_out = False
     try:
-        out, err = p.communicate(stdin_data, timeout=timeout)
-        rc = p.returncode
-    except subprocess.TimeoutExpired:
-        rc, out, err = -999, b"", b"TIMEOUT"
+        if stdin_data is not None:
+            try:
+                p.stdin.write(stdin_data); p.stdin.close()
+            except (BrokenPipeError, OSError):
+                pass
+        try:
+            rc = p.wait(timeout=timeout)
+        except subprocess.TimeoutExpired:
+            rc, timed_out = -999, True
     finally:
         try:
             os.killpg(p.pid, signal.SIGKILL)
@@ -53,6 +62,11 @@ def run_child(cmd, timeout, cwd=None, env=None, stdin_data=None):
             p.wait(timeout=5)
         except Exception:
             pass
+    fo.seek(0); fe.seek(0)
+    out, err = fo.read(), fe.read()
+    fo.close(); fe.close()
+    if timed_out:
+        out, err = b"", b"TIMEOUT"
     return rc, out.decode("utf-8", "replace"), err.decode("utf-8", "replace")
 
 
